@@ -87,10 +87,13 @@ CLAIMED = {
          "Static decision of the structural necessary conditions of C17's round-trip statement: no field is silently dropped by encoding/json, every custom codec pair uses one representation and one scaling constant both ways, decoding rounds instead of truncating, NewKeyEnvelope/Unwrap use the same cipher construction under complementary guards. It does not run encoding/json; equality of decode(encode(v)) for all values follows from these clauses and the documented behaviour of encoding/json, which is trusted.",
          "Trusts go/ssa, go/types struct tags, internal/flow, the documented behaviour of encoding/json, encoding/hex, strconv, time.",
          "DESIGN.md §3 C17"),
+ "C05": ("bit-precise abstract interpretation of the property's whole call history on one symbolic frame: sender (EncryptFRMPayload, EncryptFOpts, Set*DataMIC, MarshalBinary) then receiver (UnmarshalBinary, full FCnt, Validate*DataMIC, DecryptFOpts / DecodeFOptsToMACCommands, DecryptFRMPayload) with AES and AES-CMAC as uninterpreted functions; receiver-side CMAC input compared with the received bytes",
+         "Static decision of C05's composition clause for every structural configuration (direction x confirmed x MAC version x location of the MAC commands x payload length) and all field values, keys and counters at once: each step succeeds, the MIC validates, the received frame equals the original leaf by leaf; plus: the receiver authenticates exactly the received bytes. The tamper clause beyond that ('fails whenever the specification's MIC differs') rests on the MIC block rules claimed under C02.",
+         "Trusts internal/absint (operator semantics, intrinsic models incl. maps and function values), AES/CMAC as functions of their inputs.",
+         "DESIGN.md §3 C05"),
 }
 
 NOT_APPLICABLE = {
- "C05": "end-to-end composition over runtime values and call histories; its structural prerequisites are exactly the clauses claimed under C01-C04/C07, so claiming it would count one static argument twice (DESIGN.md §3 C05)",
  "C14": "plan/apply fixpoint over runtime channel sets and mutation histories; no shape-decidable necessary condition short of the algorithm itself (DESIGN.md §3 C14)",
 }
 
